@@ -230,12 +230,12 @@ fn c03_scn(cfg: Cfg, full: bool) -> C03 {
             }
             Life::Live => {
                 if !v.registered(1) {
-                    for l in ["PASS right", "PASS wrong", "PASS userpw", "PASS :right ", "PASS : userpw", "NICK n", "USER other 0 * :r", "CAP LS 302", "CAP REQ :sasl", "CAP END", "QUIT"] {
+                    for l in ["PASS right", "PASS wrong", "PASS userpw", "PASS :right ", "PASS : userpw", "NICK n", "USER other 0 * :r", "CAP LS 302", "CAP REQ :sasl", "CAP LIST", "CAP END", "QUIT"] {
                         acts.push(Act::Send(1, l.to_string()));
                     }
                     acts.push(Act::Send(1, format!("USER {} 0 * :r", uname)));
                     if full {
-                        for l in ["CAP REQ :multi-prefix", "CAP REQ :multi-prefix sasl", "CAP REQ", "AUTHENTICATE PLAIN", "NICK wit", "CAP LIST"] {
+                        for l in ["CAP REQ :multi-prefix", "CAP REQ :multi-prefix sasl", "CAP REQ", "AUTHENTICATE PLAIN", "NICK wit"] {
                             acts.push(Act::Send(1, l.to_string()));
                         }
                     }
